@@ -1,10 +1,11 @@
 import ReplicatProofs.Lemmas.ChunkerLocal
+import ReplicatProofs.Lemmas.ChunkerSyncBlocks
 import ReplicatModel.Clmul
 import ReplicatProofs.Properties.C10
 /-!
 # C11 — chunk boundaries are content-defined and re-synchronise after edits
 
-Property theorems only (helper lemmas: `Lemmas/ChunkerLocal.lean`).  Every statement holds for every hash function `h`
+Property theorems only (helper lemmas: `Lemmas/ChunkerLocal.lean`, `Lemmas/ChunkerSyncBlocks.lean`).  Every statement holds for every hash function `h`
 (hence every 16-byte key), every valid parameter pair and every segmentation of the streams into pieces.
 
 `greedyFull p h S` is the segmentation-independent chunking of `S` by main-rule cuts while at least `2·max` bytes
@@ -73,6 +74,44 @@ theorem chunk_split_indep_pair (p : CParams) (hv : p.valid) (h : Hash) (pieces p
   simp only [Option.some.injEq] at hg'
   subst hg'
   exact ⟨g, tail, tail', rfl, rfl, hcov⟩
+
+/-! ## input blocks of any size -/
+
+/-- **adapter_takes_blocks_whole.** The code's loop appends every input block to its buffer whole, exactly like the model's
+`feed`: the extractor finds no integer constant that `gclmulchunker.__call__` (or anything it hands its blocks to) compares
+with, slices by or steps over a value derived from the input blocks (`Gen.adapterBlockThresholds = []`), so what reaches the
+buffer (`adapterPieces`) are the caller's blocks.  An edit that makes the loop treat blocks by size (a threshold constant)
+makes this stop compiling; the harness then searches with blocks below / at / above / several times every size constant. -/
+theorem adapter_takes_blocks_whole (blocks : List Bytes) : adapterPieces blocks = blocks := rfl
+
+/-- Every block threshold the extractor recognises is one of the size constants (`Gen.sizeConstants`: all integer constants of
+adapters.py, repository.py, adapters.cpp) from which the harness derives the block sizes of its generated streams. -/
+theorem block_thresholds_are_generated : ∀ t ∈ Gen.adapterBlockThresholds, t ∈ Gen.sizeConstants := by decide
+
+/-- **block_resplit_indep.** Blocks of any size: cutting every block longer than `t` into pieces of `t` bytes (for any `t`, and
+again for any list of thresholds) before the loop — with finality decided per *piece* by the look-ahead, as `feed` does —
+changes nothing up to the tail zone.  In particular a stream handed over as ONE block is cut like the same stream in small
+blocks. -/
+theorem block_resplit_indep (p : CParams) (hv : p.valid) (h : Hash) (blocks : List Bytes) (ts : List Nat) (cs cs' : List Bytes)
+    (hc : chunkAll p h blocks = some cs) (hc' : chunkAll p h (ts.foldl (fun ps t => resplit t ps) blocks) = some cs') :
+    ∃ g tail tail', cs = g ++ tail ∧ cs' = g ++ tail' ∧ blocks.flatten.length < g.flatten.length + 2 * p.max :=
+  chunk_split_indep_pair p hv h blocks _ cs cs' (foldl_resplit_flatten ts blocks).symm hc hc'
+
+/-- Why the finality flag must belong to the *piece*: feeding the single 56-byte block below in pieces of 22 bytes while passing
+the block's finality ("no further block") to `next_cut` after every piece (`feedBlockFinal`) applies the end-of-stream rule at
+the piece border: the third chunk (start 8, far outside the tail zone) differs from the adapter's, and a boundary is forced at
+the block-relative offset 22 — not a multiple of the alignment, contradicting `boundaries_aligned`.  Correct piecewise feeding
+(`resplit`) gives the adapter's result. -/
+theorem block_final_per_piece_witness :
+    let p : CParams := ⟨4, 8⟩
+    let hh : Hash := fun w => (w.headD 0).toNat
+    let X : Bytes := [7, 1, 2, 3, 4, 5, 6, 7, 8, 9, 10, 11, 12, 13, 14, 15, 16, 17, 18, 19, 20, 21, 22, 23, 24, 3, 9, 4, 1, 5, 9, 2, 6, 5, 3, 5,
+      8, 9, 7, 9, 3, 2, 3, 8, 4, 6, 2, 6, 4, 3, 3, 8, 3, 2, 7, 9]
+    p.valid ∧
+    (chunkAll p hh [X]).map (·.map List.length) = some [4, 4, 4, 4, 4, 4, 4, 4, 4, 4, 4, 8, 4] ∧
+    (chunkAll p hh (resplit 22 [X])).map (·.map List.length) = some [4, 4, 4, 4, 4, 4, 4, 4, 4, 4, 4, 8, 4] ∧
+    (feedBlockFinal p hh 22 [] [X]).map (·.map List.length) = some [4, 4, 8, 6, 4, 4, 8, 6, 8, 4] := by
+  refine ⟨by decide, by decide +kernel, by decide +kernel, by decide +kernel⟩
 
 /-! ## restart at a boundary -/
 
